@@ -90,6 +90,12 @@ def run(ctx):
                              {"op": "execute", "p": "x1p", "ctx": "owntrio:h1", "how": "val:x"}, {"op": "execute", "p": "x2p", "ctx": "owntrio:h1", "how": "val:1"},
                              {"op": "execute", "p": "x3p", "ctx": "ownloop:h1", "how": "exc:UserExc"}, {"op": "execute", "p": "x4p", "ctx": "ownloop:h1", "how": "val:x"},
                              {"op": "seg", "p": "t1", "hold": 0.002}, {"op": "step", "p": "c1"}, {"op": "polls", "n": 2}], "shape": "targeted-execute-from-private-loop-worker"})
+    # a trio payload adopted from the main task of a thread payload's PRIVATE trio.run runs in the
+    # runtime's trio loop, not in the private one
+    extra.append({"seed": ctx.seed, "jitter": 0.0, "payloads": {"t1": {"flavour": "trio"}, "h1": {"flavour": "threading"}, "late": {"flavour": "trio"}, "late2": {"flavour": "trio"}},
+                  "script": [{"op": "adopt", "p": "t1"}, {"op": "adopt", "p": "h1"}, {"op": "accept"}, {"op": "wait_running"}, {"op": "wait_start", "p": "t1"}, {"op": "wait_start", "p": "h1"},
+                             {"op": "adopt", "p": "late", "ctx": "owntrio:h1"}, {"op": "wait_start", "p": "late"}, {"op": "seg", "p": "late", "hold": 0.002}, {"op": "seg", "p": "t1", "hold": 0.002},
+                             {"op": "adopt", "p": "late2", "ctx": "owntrio:h1"}, {"op": "wait_start", "p": "late2"}, {"op": "step", "p": "late2"}, {"op": "polls", "n": 2}], "shape": "targeted-adopt-from-private-trio-loop"})
     # a long blocking execute() is in flight while coroutine payloads adopt and step
     for f in scen.FLAVS:
         extra.append({"seed": ctx.seed, "jitter": 0.0, "payloads": {"c1": {"flavour": "asyncio"}, "t1": {"flavour": "trio"}, "x1p": {"flavour": f}, "late": {"flavour": "threading"}, "late2": {"flavour": "asyncio"}},
